@@ -7,6 +7,17 @@ _A_NOTE = ('Trusted: CrossHair 0.0.110 proxy semantics and path pruning, z3 5.1.
            'before a VIOLATION is printed.')
 
 CLAIMS = {
+    'C02': dict(
+        engine='A-crosshair',
+        technique='bounded symbolic execution of the real code (CrossHair + z3) against an independent mirror construction',
+        text=('For every DAG of <=4 Buildable nodes with two child slots each (every choice of earlier node or leaf per '
+              'slot, solver-enumerated), the listed wrapper kinds (bare, list, tuple, dict, namedtuple, list-in-dict, a '
+              'user-registered node type whose flatten allocates temporaries), Config/Partial kinds, shared container '
+              'objects, an equal-but-distinct twin, and unbounded symbolic int leaves: the invocation log holds every '
+              'reachable Config exactly once with children before parents, the canonical form of the built graph '
+              '(including aliasing) equals that of an independent mirror construction, and two builds share no '
+              'mutable object.'),
+        note=_A_NOTE + ' GC-driven id reuse is outside the claim (not a program input).'),
     'C01': dict(
         engine='A-crosshair',
         technique='bounded symbolic execution of the real code (CrossHair + z3), differential against the direct call',
